@@ -236,13 +236,21 @@ class C19(Prop):
                     made[0] = 0
                     obs.append("ok")
                 elif t[0] == "mapk" and len(t) == 6:
-                    casc = m.MAPKCascade(tier1_amplification=float(Fraction(t[3])), tier2_amplification=float(Fraction(t[4])),
-                                         tier3_amplification=float(Fraction(t[5])), halt_on_failure=t[1] == "1",
-                                         max_amplification=float(Fraction(t[2])), silent=True)
+                    # the preset's stage objects are picked up through the public add_stage (the preset registers its
+                    # tiers with it); only if that sees nothing, through the private list
+                    added = []
+
+                    class _Rec(m.MAPKCascade):
+                        def add_stage(self, stage, *a, **kw):
+                            added.append(stage)
+                            return super().add_stage(stage, *a, **kw)
+                    casc = _Rec(tier1_amplification=float(Fraction(t[3])), tier2_amplification=float(Fraction(t[4])),
+                                tier3_amplification=float(Fraction(t[5])), halt_on_failure=t[1] == "1",
+                                max_amplification=float(Fraction(t[2])), silent=True)
                     log.clear()
                     cur.clear()
                     made[0] = 3
-                    for k, st_ in enumerate(casc._stages):
+                    for k, st_ in enumerate(added if added else list(getattr(casc, "_stages"))):
                         d = {"cp": "none" if st_.checkpoint is None else f"mapk{k + 1}", "pr": f"mapk{k + 1}", "eh": "none",
                              "req": True, "amp": st_.amplification, "id": k, "name": st_.name}
                         cur.append(d)
